@@ -29,6 +29,7 @@ func c14Flat(ring []ipt, stride int, r *fw.Rand) []float64 {
 			out = append(out, gen.Float(r, gen.AnyClass(r)))
 		}
 	}
+	negZeros(r, out, stride)
 	return out
 }
 
@@ -157,6 +158,9 @@ func translate(ring []ipt, dx, dy int64) []ipt {
 
 // (a) ring direction and signed area
 func c14Rings(c *fw.Ctx, idx int) {
+	if c.R.Chance(1, 64) {
+		xyRefusedCalls(c)
+	}
 	r := c.R
 	ox, oy := c14Offsets[r.Intn(len(c14Offsets))], c14Offsets[r.Intn(len(c14Offsets))]
 	var ring []ipt
@@ -485,6 +489,9 @@ func c14Polygons(c *fw.Ctx, idx int) {
 	for i, p := range polys {
 		gp[i] = c14BuildPolygon(p, layout, r)
 	}
+	if r.Chance(1, 4) {
+		c14RefusedCalls(c, layout)
+	}
 	var got geom.Coord
 	if c.Guard("panic", func() { got = xy.PolygonsCentroid(gp[0], gp[1:]...) }) {
 		return
@@ -493,7 +500,11 @@ func c14Polygons(c *fw.Ctx, idx int) {
 		return
 	}
 	hg := got
-	if !holdAndRecheck(c, "c14-centroid", "PolygonsCentroid result", func() string { return fw.Fs(hg) }) {
+	if !holdRecheckScribble(c, "c14-centroid", "PolygonsCentroid result", func() string { return fw.Fs(hg) }, func() {
+		for i := range hg[:cap(hg)] {
+			hg[:cap(hg)][i] = -4.25e200
+		}
+	}) {
 		return
 	}
 	// the same through a MultiPolygon and through Centroid()
@@ -536,6 +547,9 @@ func c14Polygons(c *fw.Ctx, idx int) {
 
 // (c) zero-area polygons fall back to the length-weighted centroid
 func c14ZeroArea(c *fw.Ctx, idx int) {
+	if c.R.Chance(1, 64) {
+		xyRefusedCalls(c)
+	}
 	r := c.R
 	ox, oy := c14Offsets[r.Intn(len(c14Offsets))], c14Offsets[r.Intn(len(c14Offsets))]
 	npoly := r.Range(1, 3)
@@ -584,6 +598,9 @@ func c14ZeroArea(c *fw.Ctx, idx int) {
 
 // (d) lines and points
 func c14LinesPoints(c *fw.Ctx, idx int) {
+	if c.R.Chance(1, 64) {
+		xyRefusedCalls(c)
+	}
 	r := c.R
 	ox, oy := c14Offsets[r.Intn(len(c14Offsets))], c14Offsets[r.Intn(len(c14Offsets))]
 	layout := c14Layouts[r.Intn(4)]
@@ -799,4 +816,44 @@ func init() {
 		},
 		Require: []string{"ring_ccw", "ring_cw", "ring_tie_at_top", "ring_star", "ring_staircase", "with_holes", "polygons_1", "polygons_3", "zero_area_fallback", "line_sets", "point_sets"},
 	})
+}
+
+// c14RefusedCalls makes centroid calls on inputs the functions cannot handle (an
+// empty member after a non-empty one, a hole of three coordinates, an empty line
+// among lines): as the code stands they panic part-way through, the caller
+// recovers, and goes on.  Nothing is judged here; what is judged is the ordinary
+// call that follows - whatever the failed call had accumulated must be gone.
+func c14RefusedCalls(c *fw.Ctx, layout geom.Layout) {
+	st := layout.Stride()
+	ring := func(pts ...float64) []float64 {
+		f := make([]float64, 0, len(pts)/2*st)
+		for i := 0; i+1 < len(pts); i += 2 {
+			f = append(f, pts[i], pts[i+1])
+			for k := 2; k < st; k++ {
+				f = append(f, 0)
+			}
+		}
+		return f
+	}
+	sq := ring(100, 100, 140, 100, 140, 140, 100, 140, 100, 100)
+	tri := ring(110, 110, 120, 110, 110, 110) // three coordinates: not a ring
+	try := func(f func()) {
+		defer func() {
+			if recover() != nil {
+				c.Count("refused_centroid_calls_that_panicked")
+			}
+		}()
+		f()
+	}
+	poly := geom.NewPolygonFlat(layout, sq, []int{len(sq)})
+	withBadHole := geom.NewPolygonFlat(layout, append(append([]float64{}, sq...), tri...), []int{len(sq), len(sq) + len(tri)})
+	mpEmptySecond := geom.NewMultiPolygonFlat(layout, sq, [][]int{{len(sq)}, {}})
+	try(func() { xy.MultiPolygonCentroid(mpEmptySecond) })
+	try(func() { xy.PolygonsCentroid(poly, geom.NewPolygon(layout)) })
+	try(func() { xy.PolygonsCentroid(withBadHole) })
+	try(func() { xy.Centroid(mpEmptySecond) })
+	try(func() { xy.LinesCentroid(geom.NewLineStringFlat(layout, sq), geom.NewLineString(layout)) })
+	try(func() { xy.LinearRingsCentroid(geom.NewLinearRingFlat(layout, sq), geom.NewLinearRing(layout)) })
+	try(func() { xy.PointsCentroid(geom.NewPointFlat(layout, sq[:st]), geom.NewPointEmpty(layout)) })
+	c.Count("refused_centroid_calls_before_a_judged_one")
 }
